@@ -159,6 +159,8 @@ def run(ctx):
         exp = None if m is None else (norm(join(cdir, m[1])) if m[0] == "spec" else norm(join(sdir, m[1])))
         if ans != exp:
             res.tie_break("assets.lookup", case, ans, exp)
+    from adapters import strlib
+    strlib.validate(ctx, res, routines=('lower', 'endswith', 'rpartition'))
     res.assumptions = ["Python re is trusted for the three preset forms (lit, ^lit, lit$); names contain no line breaks",
                        "which of several matching entries is returned is not claimed: the direct layer checks membership, the tie checks 'first listed'",
                        "the disc image lookup by name is not claimed and not generated"]
